@@ -33,10 +33,10 @@ theorem verdictFromOpts_same (v : Variant) (cfg : Cfg) (ord ord' : List Path) (f
     *any* choice of `--high_memory` (`hm`: not restored from `.params`) and `--keep_tmp` (`kt`) on the resume command line:
     the resumed run completes and every final file equals that of the uninterrupted run with the options of the killed run -/
 theorem resume_correct_from_opts {cfg : Cfg} (wf : WF cfg) (ord ord' : List Path) (hord : ord.Nodup) (hord' : ord'.Nodup)
-    (hm kt : Bool) (fs0 : FS) (hs : cfg.fromSaves = true → SavesConsistent cfg fs0) (k : Nat)
+    (hm kt : Bool) (fs0 : FS) (hs : cfg.fromSaves = true → SavesConsistent cfg fs0) (hi : IndexSound cfg fs0) (k : Nat)
     (hk : (lockList cfg fs0).length + 2 ≤ k) : verdictFromOpts fixed cfg ord ord' hm kt fs0 k = .equal := by
   obtain ⟨hevs, hok0, hfs0⟩ := run_split wf ord fs0
-  have hJ0 := J0_cleaned fs0 hs
+  have hJ0 := J0_cleaned fs0 hs hi
   have hcl : lockList cfg (cleaned cfg fs0) = [] := lockList_cleaned cfg fs0
   have hsv1 : cfg.fromSaves = true → SavesOK cfg (cleaned cfg fs0) := fun e =>
     savesOK_frame (hs e).1 (cleaned_other cfg fs0 rfl) (fun _ => cleaned_other cfg fs0 rfl) (fun _ => cleaned_other cfg fs0 rfl)
@@ -83,16 +83,18 @@ theorem resume_correct_from_opts {cfg : Cfg} (wf : WF cfg) (ord ord' : List Path
 theorem resume_correct_opts {cfg : Cfg} (wf : WF cfg) (hfs : cfg.fromSaves = false) (ord ord' : List Path) (hord : ord.Nodup)
     (hord' : ord'.Nodup) (hm kt : Bool) (k : Nat) (hk : 2 ≤ k) :
     verdictFromOpts fixed cfg ord ord' hm kt FS.empty k = .equal :=
-  resume_correct_from_opts wf ord ord' hord hord' hm kt FS.empty (fun e => by rw [hfs] at e; exact absurd e (by simp)) k
+  resume_correct_from_opts wf ord ord' hord hord' hm kt FS.empty (fun e => by rw [hfs] at e; exact absurd e (by simp))
+    (indexSound_empty cfg) k
     (by rw [lockList_empty]; simpa using hk)
 
 /-- the same under a process pool: any schedules of the killed and of the resumed run -/
 theorem resume_correct_pool_from_opts {cfg : Cfg} (wf : WF cfg) (ord ord' : List Path) (hord : ord.Nodup) (hord' : ord'.Nodup)
-    (hm kt : Bool) (s1 s2 s1' s2' : List Chr) (fs0 : FS) (hs : cfg.fromSaves = true → SavesConsistent cfg fs0) (k : Nat)
+    (hm kt : Bool) (s1 s2 s1' s2' : List Chr) (fs0 : FS) (hs : cfg.fromSaves = true → SavesConsistent cfg fs0)
+    (hi : IndexSound cfg fs0) (k : Nat)
     (hk : (lockList cfg fs0).length + 2 ≤ k) :
     verdictPoolFromOpts fixed cfg ord ord' hm kt s1 s2 s1' s2' fs0 k = .equal := by
   obtain ⟨hevs, hok0, hfs0⟩ := runPool_split wf ord s1 s2 fs0
-  have hJ0 := J0_cleaned fs0 hs
+  have hJ0 := J0_cleaned fs0 hs hi
   have hcl : lockList cfg (cleaned cfg fs0) = [] := lockList_cleaned cfg fs0
   have hsv1 : cfg.fromSaves = true → SavesOK cfg (cleaned cfg fs0) := fun e =>
     savesOK_frame (hs e).1 (cleaned_other cfg fs0 rfl) (fun _ => cleaned_other cfg fs0 rfl) (fun _ => cleaned_other cfg fs0 rfl)
@@ -195,7 +197,7 @@ example : (run fixed (resumeCfg cfgE false true) ordE true (crashFS fixed cfgE o
 -- process pool, the new options, the options of the resume command line
 example : verdictPoolFromOpts fixed cfgE ordE ordE false false [0, 1, 0, 1, 1, 0] [1, 1, 0] [1, 0] [0, 1, 1, 0] FS.empty 150 = .equal :=
   resume_correct_pool_from_opts cfgE_wf ordE ordE (by decide) (by decide) false false _ _ _ _ FS.empty
-    (fun e => by simp [cfgE] at e) 150 (by rw [lockList_empty]; decide)
+    (fun e => by simp [cfgE] at e) (indexSound_empty _) 150 (by rw [lockList_empty]; decide)
 
 /-- two experiments in one invocation: `cfgN` (`--no_model_construction`, `--high_memory`), then `cfgE` (`--count_exons`, gzipped
     outputs); both alignment files have unaligned reads, `mkExps` marks the second one `carried` -/
@@ -207,8 +209,8 @@ theorem expsO_wf : MWF expsO := by
   simp only [expsO, mkExps, withCarried, List.zip_cons_cons, List.zip_nil_right, List.zipIdx_cons, List.zipIdx_nil,
     List.map_cons, List.map_nil, List.mem_cons, List.not_mem_nil, or_false] at hx
   rcases hx with rfl | rfl
-  · exact ⟨⟨by decide, by decide, by decide, fun _ => Iff.rfl, fun _ _ h => h⟩, ⟨rfl, rfl⟩, by decide⟩
-  · exact ⟨⟨cfgE_wf.nd, cfgE_wf.mnd, cfgE_wf.bnd, cfgE_wf.m_iff, cfgE_wf.b_sub⟩, ⟨rfl, rfl⟩, by decide⟩
+  · exact ⟨⟨by decide, by decide, by decide, fun _ => Iff.rfl, fun _ _ h => h⟩, ⟨rfl, rfl, rfl⟩, by decide⟩
+  · exact ⟨⟨cfgE_wf.nd, cfgE_wf.mnd, cfgE_wf.bnd, cfgE_wf.m_iff, cfgE_wf.b_sub⟩, ⟨rfl, rfl, rfl⟩, by decide⟩
 
 -- `resume_correct_multi` over the extended configuration space: 2 + 61 + 260 events, killed inside the merge of the exon
 -- counts of the second experiment
